@@ -238,7 +238,7 @@ fn main() {
 
     // ---- quaternion nlerp / slerp -------------------------------------------------------------------
     rep.section("quaternion slerp, exact (angle tokens)",
-        "from = identity, to = +-(axis sin 4phi, cos 4phi) for unit axes {x,y,z,(1,2,2)/3,(2,3,6)/7} and 6 rational angle bases phi with 4phi < pi/2 (so that +-to exercises the sign-flip branch), factors j/4, j=-2..6: slerp_unclamped = (axis sin(j phi), cos(j phi)) exactly: unit, constant angular speed, shorter arc, far end up to sign; plus from == to (near-parallel fallback); Slerp trait for values and references and the clamped form; non-trivial: j not in {0,4}", true, false, |s| {
+        "from = identity, to = +-(axis sin 4phi, cos 4phi) for unit axes {x,y,z,(1,2,2)/3,(2,3,6)/7} and 6 rational angle bases phi with 4phi < pi/2 (so that +-to exercises the sign-flip branch), factors j/4, j=-2..6: slerp_unclamped = (axis sin(j phi), cos(j phi)) exactly: unit, constant angular speed, shorter arc, far end up to sign; plus from == to (near-parallel fallback) and to == -from (same rotation: result +-from at every factor); Slerp trait for values and references and the clamped form; non-trivial: j not in {0,4}", true, false, |s| {
         s.require_classes(&["sign-flip-branch", "direct-branch", "parallel-fallback"]);
         let axes: [[X; 3]; 5] = [[qi(1), qi(0), qi(0)], [qi(0), qi(1), qi(0)], [qi(0), qi(0), qi(-1)], [q(1, 3), q(2, 3), q(2, 3)], [q(2, 7), q(-3, 7), q(6, 7)]];
         for (tn, td) in [(1, 8), (1, 10), (1, 12), (1, 16), (2, 21), (1, 20)] {
@@ -284,13 +284,23 @@ fn main() {
                 if let Some(g) = s.call("slerp", || json!({"q": jxs(&dq(qq))}), || dq(Quaternion::slerp_unclamped(qq, qq, q(j, 4)))) {
                     if g != dq(qq) { s.violation("Quaternion::slerp_unclamped", "from==to-not-fixed", json!({"q": jxs(&dq(qq)), "factor": j, "got": jxs(&g)})); }
                 }
+                // to == -from denotes the same rotation: the shorter arc has length zero, so every factor yields +-from (a unit
+                // quaternion for the same rotation); a division by zero / no value at all is a failure, not an unmodelled case
+                s.eval(true); s.class("to-is-minus-from");
+                let nq = Quaternion { x: -qq.x, y: -qq.y, z: -qq.z, w: -qq.w };
+                for (site, r) in [("Quaternion::slerp_unclamped", catch(|| dq(Quaternion::slerp_unclamped(qq, nq, q(j, 4))))), ("Slerp::slerp_unclamped for &Quaternion", catch(|| dq(<&Quaternion<X> as Slerp<X>>::slerp_unclamped(&qq, &nq, q(j, 4)))))] {
+                    match r {
+                        Ok(g) => if g != dq(qq) && g != dq(nq) { s.violation(site, "to==-from-not-the-same-rotation", json!({"q": jxs(&dq(qq)), "factor/4": j, "got": jxs(&g)})); },
+                        Err(e) => s.violation(site, "to==-from-yields-no-value", json!({"q": jxs(&dq(qq)), "factor/4": j, "error": format!("{:?}", e)})),
+                    }
+                }
             }
         }
     });
 
     rep.section("quaternion nlerp (Lerp trait) returns unit quaternions; slerp stays unit (f64)",
         "all ordered pairs of 26 unit quaternions (axis in 13 directions x 2 angles) x 9 factors in [-0.5,1.5] (f64): |Lerp result| = 1 within 64 eps for value/reference, fast/precise; |slerp| = 1, slerp(.,.,0) ~ from, slerp(.,.,1) ~ +-to, and for a common axis slerp is the rotation at the interpolated angle (constant angular speed) within 256 eps / sin(angle); pairs with |dot| < 1e-3 of antiparallel-in-4D excluded for nlerp (degenerate: lerp passes near zero); non-trivial: from != to", true, false, |s| {
-        s.require_classes(&["common-axis", "general-pair"]);
+        s.require_classes(&["common-axis", "general-pair", "to-is-minus-from"]);
         let dirs: Vec<[f64; 3]> = { let mut v = Vec::new(); for x in -1..=1 { for y in -1..=1 { for z in -1..=1 { if (x, y, z) > (0, 0, 0) { v.push([x as f64, y as f64, z as f64]); } } } } v };
         let mut qs: Vec<(usize, f64, Quaternion<f64>)> = Vec::new();
         for (ai, a) in dirs.iter().enumerate() { let n = (a[0] * a[0] + a[1] * a[1] + a[2] * a[2]).sqrt(); for ang in [0.7f64, 2.3] { let (sh, ch) = ((ang / 2.0).sin(), (ang / 2.0).cos()); qs.push((ai, ang, Quaternion { x: a[0] / n * sh, y: a[1] / n * sh, z: a[2] / n * sh, w: ch })); } }
@@ -331,6 +341,17 @@ fn main() {
             } else { s.class("general-pair"); }
             if s.wants_sample() && k == 1 && ai != bi { s.sample(json!({"input": inp(), "slerp": [r.x, r.y, r.z, r.w]})); }
         } } }
+        // to = -from (the same rotation): unit result equal to +-from at every factor, including 1/2 where a plain lerp passes through zero
+        for &(_, _, a) in &qs { for k in -2i32..=6 {
+            let f = k as f64 / 4.0;
+            let b = Quaternion { x: -a.x, y: -a.y, z: -a.z, w: -a.w };
+            s.eval(true); s.class("to-is-minus-from");
+            for (site, r) in [("Quaternion::slerp_unclamped<f64>", Quaternion::slerp_unclamped(a, b, f)), ("Quaternion::slerp<f64>", Quaternion::slerp(a, b, f)), ("Slerp::slerp_unclamped for &Quaternion<f64>", <&Quaternion<f64> as Slerp<f64>>::slerp_unclamped(&a, &b, f))] {
+                let t = 64.0 * f64::EPSILON;
+                let same = |sg: f64| (r.x - sg * a.x).abs() <= t && (r.y - sg * a.y).abs() <= t && (r.z - sg * a.z).abs() <= t && (r.w - sg * a.w).abs() <= t;
+                if !(same(1.0) || same(-1.0)) { s.violation(site, "to==-from-not-the-same-rotation", json!({"from": [a.x, a.y, a.z, a.w], "factor": f, "got": format!("{:?}", [r.x, r.y, r.z, r.w])})); }
+            }
+        } }
     });
 
     rep.section("Transform lerp = (lerp position, slerp orientation, lerp scale)",
